@@ -309,9 +309,12 @@ class Obligation:
 
 
 class Path:
-    def __init__(self, engine, prefix):
+    def __init__(self, engine, prefix, replay_log=()):
         self.engine = engine
         self.prefix = list(prefix)
+        self.replay_log = list(replay_log)   # solver answers recorded by the parent path up to its fork point
+        self.log = []
+        self.qi = 0
         self.pos = 0
         self.trace = []
         self.pc = []
@@ -323,7 +326,8 @@ class Path:
         self.solver.set("rlimit", engine.rlimit_feas)
         self.calls = 0
         self.sub_roots = {}             # z3 const id -> True : terms structurally below the input
-        self.unfolded = set()
+        from .deffun import Unfolder
+        self.unfolder = Unfolder(rounds=3)
         self.insts = []                 # defining-equation instances added for pc (deffun.py)
 
     def assume(self, cond):
@@ -338,24 +342,37 @@ class Path:
             raise Infeasible()
         self.pc.append(cond)
         self.solver.add(cond)
-        from .deffun import unfold_closure
-        for inst in unfold_closure([cond], rounds=3, done=self.unfolded):
+        for inst in self.unfolder.add([cond]):
             self.insts.append(inst)
             self.solver.add(inst)
+
+    def query(self, compute):
+        """Solver-derived answer, replayed from the parent's log while on the shared prefix
+        (execution is deterministic, so the k-th query of a replay is the k-th query of the parent)."""
+        if self.qi < len(self.replay_log):
+            r = self.replay_log[self.qi]
+        else:
+            r = compute()
+        self.qi += 1
+        self.log.append(r)
+        return r
 
     def feasible(self, cond=None):
         if cond is not None:
             c = z3.simplify(cond)
             if z3.is_true(c):
-                return self.feasible(None) if False else True
+                return True
             if z3.is_false(c):
                 return False
-            self.engine.stats["feas_checks"] += 1
-            r = self.solver.check(c)
+
+            def compute():
+                self.engine.stats["feas_checks"] += 1
+                return self.solver.check(c) != z3.unsat
         else:
-            self.engine.stats["feas_checks"] += 1
-            r = self.solver.check()
-        return r != z3.unsat
+            def compute():
+                self.engine.stats["feas_checks"] += 1
+                return self.solver.check() != z3.unsat
+        return self.query(compute)
 
     def entails(self, cond):
         c = z3.simplify(cond)
@@ -363,8 +380,11 @@ class Path:
             return True
         if z3.is_false(c):
             return False
-        self.engine.stats["feas_checks"] += 1
-        return self.solver.check(z3.Not(c)) == z3.unsat
+
+        def compute():
+            self.engine.stats["feas_checks"] += 1
+            return self.solver.check(z3.Not(c)) == z3.unsat
+        return self.query(compute)
 
     def choose(self, options):
         """options: list of (label, cond|None).  Returns the index taken on this path."""
@@ -384,7 +404,7 @@ class Path:
                 j = 0
                 k = feas[0]
                 for alt in range(1, len(feas)):
-                    self.engine._work.append(self.trace + [alt])
+                    self.engine._work.append((self.trace + [alt], list(self.log)))
             self.trace.append(j)
             self.pos += 1
         label, cond = options[k]
@@ -428,11 +448,11 @@ class Engine:
     # ---- exploration --------------------------------------------------------------------
     def explore(self, runner, max_paths=4000):
         """runner(path) -> outcome.  Returns list of (path, outcome)."""
-        self._work = [[]]
+        self._work = [([], [])]
         results = []
         while self._work:
-            prefix = self._work.pop()
-            path = Path(self, prefix)
+            prefix, rlog = self._work.pop()
+            path = Path(self, prefix, rlog)
             self.stats["paths"] += 1
             if self.stats["paths"] > max_paths * 50:
                 raise Unsupported("path explosion")
@@ -563,32 +583,35 @@ class Engine:
             return path.tags[key]
         # syntactic: pc contains a tester on t
         # model-guided enumeration of feasible constructors
-        feas = []
-        s = path.solver
-        s.push()
-        try:
-            order = list(expected or [])
-            while True:
-                self.stats["feas_checks"] += 1
-                r = s.check()
-                if r == z3.unsat:
-                    break
-                if r == z3.unknown:
-                    raise Unsupported("tag enumeration: solver unknown")
-                m = s.model()
-                v = m.eval(t, model_completion=True)
-                cn = self.U.ctor_name(v)
-                if cn is None:
-                    raise Unsupported("tag enumeration: no constructor in model")
-                feas.append(cn)
-                s.add(z3.Not(self.U.testers[cn](t)))
-                if len(feas) > 64:
-                    break
-        finally:
-            s.pop()
+        def compute():
+            feas = []
+            s = path.solver
+            s.push()
+            try:
+                while True:
+                    self.stats["feas_checks"] += 1
+                    r = s.check()
+                    if r == z3.unsat:
+                        break
+                    if r == z3.unknown:
+                        return "unknown"
+                    m = s.model()
+                    v = m.eval(t, model_completion=True)
+                    cn = self.U.ctor_name(v)
+                    if cn is None:
+                        return "unknown"
+                    feas.append(cn)
+                    s.add(z3.Not(self.U.testers[cn](t)))
+                    if len(feas) > 64:
+                        break
+            finally:
+                s.pop()
+            return sorted(feas)
+        feas = path.query(compute)
+        if feas == "unknown":
+            raise Unsupported("tag enumeration: solver unknown")
         if not feas:
             raise Infeasible()
-        feas.sort()
         k = path.choose([(cn, self.U.testers[cn](t)) for cn in feas])
         path.tags[key] = feas[k]
         return feas[k]
@@ -1216,15 +1239,17 @@ class Engine:
         if key in path.tags:
             n = path.tags[key]
             return [self.from_pv(seq[i], path) for i in range(n)]
-        s = path.solver
-        self.stats["feas_checks"] += 1
-        if s.check() != z3.sat:
-            return None
-        n = s.model().eval(z3.Length(seq), model_completion=True)
-        if not z3.is_int_value(n):
-            return None
-        n = n.as_long()
-        if n > 8:
+        def compute():
+            s = path.solver
+            self.stats["feas_checks"] += 1
+            if s.check() != z3.sat:
+                return None
+            n = s.model().eval(z3.Length(seq), model_completion=True)
+            if not z3.is_int_value(n):
+                return None
+            return n.as_long()
+        n = path.query(compute)
+        if n is None or n > 8:
             return None
         if path.entails(z3.Length(seq) == n):
             path.tags[key] = n
